@@ -36,7 +36,10 @@ def fn_paths(repo, name, **kw):
     key = (name, tuple(sorted(kw.items())))
     if key not in c:
         mod, fn = repo.find(f'{RL}::RollLog.{name}')
-        ev = Evaluator(repo, mod, **kw)
+        local_defs = {n.name: n for n in ast.walk(fn) if isinstance(n, ast.FunctionDef) and n is not fn}
+        def inline(call, rc, path, _d=local_defs, _m=mod):      # a helper defined inside the method (a closure over its locals) is evaluated in place
+            return (_m, _d[call.func.id], None) if isinstance(call.func, ast.Name) and call.func.id in _d else None
+        ev = Evaluator(repo, mod, inline=inline if local_defs else None, **kw)
         ev.scope_node = fn
         c[key] = (mod, fn, ev.run(fn.body))
     return c[key]
@@ -485,7 +488,10 @@ def r7(rr, repo):
         rd = [e for e in evs if e.kind == 'call' and (e.term.endswith('.read') or e.term.endswith('.readline'))]
         # what the last read returned decides: data -> return it; nothing -> move on / give up
         def truth(e):
-            v = [val for k, val in p.pc if k == f'truthy({e.term}())']
+            # the data of a read is what it returned, or - for delimited modes - the whole records of it (`d[:d.rfind(b'\\n') + 1]`: an unterminated tail the writer is still
+            # producing is put back); "it gave something" is the truth of whichever the code tested last
+            d_ = f'{e.term}()'
+            v = [val for k, val in p.pc if k in (f'truthy({d_})', f"truthy({d_}[:{d_}.rfind(b'\\n') + 1])")]
             return v[-1] if v else None
         if p.outcome is not None and p.outcome[0] == 'loopcut':
             # the loop goes round again: an exhausted (or vanished) file was left behind - closed, forgotten, index advanced by one and still inside the list
@@ -553,7 +559,7 @@ def r7(rr, repo):
             mode = _mode_of(p)
             blk = reads[-1].term.endswith('.read')
             d = reads[-1].term + '()'
-            t = U(o[1])
+            t = U(o[1]).replace(f"{d}[:{d}.rfind(b'\\n') + 1]", d)      # the whole records of what was read (C13.R15 looks at how the unterminated tail is put back)
             want = {
                 ('bin', True): {d}, ('bin', False): {d},
                 ('binl', True): {f"{d}.split(b'\\n')[:-1]"}, ('binl', False): {f'{d}[:-1]'},
@@ -905,3 +911,33 @@ def r14(rr, repo):
         rr.ob('the timestamp seek() reads off the sought file name is scaled like the listed ones', ok, mod, n, witness=f'{U(n)[:80]}; the scan divides by {unit}', key='seek-timestamp-unit')
         cmps = [c for c in ast.walk(seek) if isinstance(c, ast.Compare) and U(n.targets[0]) in [U(x) for x in [c.left] + c.comparators] and any('.timestamp' in U(x) for x in [c.left] + c.comparators)]
         rr.ob('... and compared with the listed timestamps', bool(cmps), mod, n, witness=U(cmps[0])[:60] if cmps else 'no comparison', key='seek-timestamp-compared')
+
+
+@rule('C13.R15', "nothing is torn while the writer is at work: a record larger than a page reaches the file piece by piece during the writer's write() call, so whatever a read of a delimited mode returns is cut back "
+                 "to its last delimiter and the file position is moved back by the length of the unterminated tail - the tail is read again, complete, by a later call (binary mode has no delimiter to go by)")
+def r15(rr, repo):
+    mod, fn = repo.find(f'{RL}::RollLog.read')
+    reads = [c for c in ast.walk(fn) if isinstance(c, ast.Call) and isinstance(c.func, ast.Attribute) and c.func.attr in ('read', 'readline') and 'read_file' in U(c.func.value)]
+    rr.floor('reads of the open log file in read()', len(reads), 2, mod, fn)
+    def trims(scope):
+        out = []
+        for n in ast.walk(scope):
+            if not isinstance(n, ast.If):
+                continue
+            t = U(n.test).replace('"', "'")
+            if "endswith(b'\\n')" not in t or 'not ' not in t:
+                continue
+            seeks = [c for c in ast.walk(n) if isinstance(c, ast.Call) and isinstance(c.func, ast.Attribute) and c.func.attr == 'seek' and len(c.args) == 2 and U(c.args[1]) in ('1', 'os.SEEK_CUR')]
+            cuts = [a for a in ast.walk(n) if isinstance(a, ast.Assign) and isinstance(a.value, ast.Subscript) and isinstance(a.value.slice, ast.Slice) and a.value.slice.lower is None and a.value.slice.upper is not None]
+            rfind = any(isinstance(c, ast.Call) and isinstance(c.func, ast.Attribute) and c.func.attr == 'rfind' and c.args and U(c.args[0]).replace('"', "'") == "b'\\n'" for c in ast.walk(n))
+            back = bool(seeks) and any('len(' in U(c.args[0]) and '-' in U(c.args[0]) for c in seeks)
+            out.append((n, bool(seeks) and back and bool(cuts) and rfind, "mode != 'bin'" in t or "mode == 'bin'" in t))
+        return out
+    for c in reads:
+        scope = enclosing_function(c)
+        tr = [x for x in trims(scope) if x[0].lineno > c.lineno]
+        ok = bool(tr) and tr[0][1]
+        rr.ob('what a read returns is cut back to the last delimiter, and the file position goes back by the length of the unterminated tail', ok, mod, c,
+              witness=U(tr[0][0].test)[:100] if tr else f'no `if not data.endswith(delimiter)` after {U(c)[:40]} in {scope.name}', key=f'whole-records-only|{scope.name}')
+        if tr:
+            rr.ob('... for the delimited modes only (binary data is handed on as it is)', tr[0][2], mod, tr[0][0], witness=U(tr[0][0].test)[:100], key=f'whole-records-not-bin|{scope.name}')
